@@ -178,8 +178,21 @@ func (c04) Run(c *mon.Ctx, i int) {
 		}
 		vs = v
 		vs.Desc = "word-salad " + vs.Desc
-	case 2, 3:
+	case 2:
+		// the longest possible dynamic header, small enough for every split point
+		st, plain, d := synth.MaxHeader(r, r.Pick(0, 0, 1, 5, 37), r.Bool())
+		vs = &ValidStream{S: st, Plain: plain, Desc: "synth " + d}
+		if i%14 != 2 {
+			vs = RandomValidStream(r, 3000)
+		}
+	case 3:
 		vs = RandomValidStream(r, 3000) // small: every split point
+		if i%14 == 3 {
+			// a packed literal(s)+long-match entry starting 258+delta bytes before the
+			// window is full; the stream is small, so every split point is tried
+			st, plain, d := synth.MatchEdge(r, (i/14)%4, (i/56)%3, r.Pick(258, 258, 257), r.Pick(0, 0, 1))
+			vs = &ValidStream{S: st, Plain: plain, Desc: "synth " + d}
+		}
 	default:
 		vs = RandomValidStream(r, 150000)
 	}
@@ -202,7 +215,7 @@ func (c04) Run(c *mon.Ctx, i int) {
 		return
 	}
 	var scheds []c04Sched
-	if len(in) <= 600 {
+	if len(in) <= 700 {
 		for k := 1; k < len(in); k++ {
 			scheds = append(scheds, c04Sched{chunk: "split", split: k, bufio: c04Bufios[r.Intn(len(c04Bufios))], viaRst: r.Bool(), dst: pickDst(r)})
 		}
